@@ -3,6 +3,7 @@ Handlers for the entropy family (C04, C05, C07, C18): entropy combinations in ex
 canonical form (symbolic leg) and evaluated in `Float` on a table (numeric leg).
 -/
 import DitModel.Core.Info
+import DitModel.Core.Ops
 import DitModel.Drv.Basic
 namespace Dit.Drv
 open Dit
@@ -87,5 +88,36 @@ def hMargF : J → Option J
 
 def infoHandlers : List (String × (J → Option J)) :=
   [("comb", hComb), ("combf", hCombF), ("entf", hEntF), ("margf", hMargF)]
+
+end Dit.Drv
+
+namespace Dit.Drv
+open Dit
+
+/-- `Float` instance of a logarithm base. -/
+def floatBase (b : Float) : LogBase Float :=
+  ⟨fun x => Float.pow b x, fun x => Float.log x / Float.log b, Float.exp2, Float.log2,
+   Float.log2 b, Float.log 2 / Float.log b⟩
+
+/-- `opsf [name, base, xs, ys]`: dit's log operations evaluated in `Float` from the model's
+formulas. `base` and the arrays are double bit patterns. -/
+def hOpsF : J → Option J
+  | .arr [.str name, b, xs, ys] => do
+      let b ← b.toFloat?
+      let xs ← J.toList? J.toFloat? xs
+      let ys ← J.toList? J.toFloat? ys
+      let B := floatBase b
+      match name with
+      | "add" => pure (listJ floatJ (List.zipWith (logAdd B) xs ys))
+      | "add_generic" => pure (listJ floatJ (List.zipWith (logAddGeneric B) xs ys))
+      | "mult" => pure (listJ floatJ (List.zipWith logMul xs ys))
+      | "invert" => pure (listJ floatJ (xs.map logInv))
+      | "add_reduce" => pure (listJ floatJ [logAddReduce B xs])
+      | "mult_reduce" => pure (listJ floatJ [logMulReduce xs])
+      | "normalize" => pure (listJ floatJ (logNormalize B xs))
+      | _ => none
+  | _ => none
+
+def opsHandlers : List (String × (J → Option J)) := [("opsf", hOpsF)]
 
 end Dit.Drv
